@@ -4,7 +4,7 @@ CONSTANTS
   Algo = "asis"
   SeedCopyreg = "live"
   InitGuard = FALSE
-  KwOnlyOK = FALSE
+  KwOnlyOK = TRUE
   SharedCtx = FALSE
   CtxCopy = TRUE
   Scns = {}
